@@ -21,10 +21,21 @@ PRES = [('uint8', 0, 1.0), ('int16', -2, 1.0), ('float32', -2, 0.25), ('float64'
 CLS = {'f': 'ANOVADistinguisher', 'nicv': 'NICVDistinguisher', 'snr': 'SNRDistinguisher'}
 
 
-def run_obj(cls, precision, t, d, classes):
+def run_obj(cls, precision, t, d, classes, split=False):
     import scared
     o = getattr(scared, cls)(partitions=None if classes is None else np.array(classes, dtype='int32'), precision=precision)
-    o.update(t, d)
+    if split and len(t) >= 2:
+        # rows sorted by class value: the classes of the second part are still empty when the first result is asked for
+        order = np.argsort(d[:, 0], kind='stable') if classes is not None else np.arange(len(t))
+        cut = max(1, len(t) // 2)
+        o.update(t[order[:cut]], d[order[:cut]])
+        try:
+            o.compute()
+        except Exception:     # noqa - a result may be undefined at that point; only the final one is compared
+            pass
+        o.update(t[order[cut:]], d[order[cut:]])
+    else:
+        o.update(t, d)
     return np.asarray(o.compute())
 
 
@@ -64,7 +75,7 @@ def run(chk):
             kappa = st.class_kappa(ps, cl)
             for metric in ('f', 'nicv', 'snr'):
                 for prec in ('float32', 'float64'):
-                    got = run_obj(CLS[metric], prec, t, d, cl)
+                    got = run_obj(CLS[metric], prec, t, d, cl, split=(i % 3 == 0))
                     if got.shape != (1, 1):
                         chk.violation(f'{CLS[metric]}:result layout', {'property': 'C04', 'ps': ps, 'shape': list(got.shape)}, f'shape {got.shape}')
                         continue
@@ -114,7 +125,7 @@ def bigger(chk):
         d = np.array([r['d'] for r in rows], dtype='uint16')
         for metric in ('f', 'nicv', 'snr'):
             for prec in ('float32', 'float64'):
-                got = run_obj(CLS[metric], prec, t, d, None if autos[ci] is not None else c['classes'])
+                got = run_obj(CLS[metric], prec, t, d, None if autos[ci] is not None else c['classes'], split=(ci % 2 == 1 and autos[ci] is None))
                 if got.shape != (c['W'], c['S']):
                     chk.violation(f'{CLS[metric]}:result layout', {'property': 'C04', 'case': case, 'shape': list(got.shape)}, f'shape {got.shape}')
                     continue
